@@ -1,6 +1,7 @@
 """Resolver tables of the Loader / Dumper (by partial evaluation over PyYAML's constant tables) and the
 regular languages {s : Tag_T(s) = t} they induce under PyYAML's `resolve`."""
 import ast
+import builtins
 import copy
 import re
 from typing import Any, Dict, List, Optional, Tuple
@@ -53,6 +54,11 @@ def _facts(P: Program, key: str, facts: List[str]):
     for f in facts:
         if f not in src:
             raise AnalysisError('%s no longer has the modelled shape (%s)' % (key, f))
+
+
+def _is_table(t) -> bool:
+    return isinstance(t, dict) and all(isinstance(v, list) and all(isinstance(e, tuple) and len(e) == 2 and isinstance(e[1], Rx)
+                                                                    for e in v) for v in t.values())
 
 
 class ResolverModel:
@@ -126,12 +132,64 @@ class ResolverModel:
                     return True
             return False
         problems = self.init_problems.setdefault(cls_key, [])
+        # statements of __init__ itself that work on the table (a patch method written out in place, or inlined by step K) are
+        # evaluated where they stand, in one environment that lives as long as __init__ does
+        params = [a.arg for a in init.node.args.args]
+        selfn = params[0] if params else 'self'
+        init_env: Dict[str, Any] = {selfn: obj}
+        table_locals: set = set()
+        if init.module.name.startswith('yatiml'):
+            ev.module_constants = init.module.constants
+            ev.cur_module = init.module
+
+        def names_table(st):
+            for x in ast.walk(st):
+                if isinstance(x, ast.Attribute) and x.attr == 'yaml_implicit_resolvers':
+                    return True
+                if isinstance(x, ast.Constant) and x.value == 'yaml_implicit_resolvers':
+                    return True
+                if isinstance(x, ast.Name) and x.id in table_locals:
+                    return True
+            return False
+        # locals that take part in computing the table: closed over the statements that name it
+        changed = True
+        while changed:
+            changed = False
+            for st in init.node.body:
+                if isinstance(st, (ast.Assign, ast.AnnAssign, ast.AugAssign, ast.For)) and names_table(st):
+                    for x in ast.walk(st):
+                        if isinstance(x, ast.Name) and x.id != selfn and x.id not in table_locals \
+                                and x.id not in params and not hasattr(builtins, x.id):
+                            table_locals.add(x.id)
+                            changed = True
         for st in init.node.body:
-            for n in ast.walk(st):
-                if isinstance(n, (ast.Attribute,)) and n.attr == 'yaml_implicit_resolvers' \
-                        and not isinstance(n.ctx, ast.Load):
-                    problems.append('%s.__init__ assigns %s directly (line %d): the table in force is no longer the '
-                                    'per-instance result of the patch methods' % (c.name, ast.unparse(n), n.lineno))
+            direct = [n for n in ast.walk(st) if isinstance(n, ast.Attribute) and n.attr == 'yaml_implicit_resolvers'
+                      and not isinstance(n.ctx, ast.Load)]
+            in_place = isinstance(st, (ast.Assign, ast.AnnAssign, ast.AugAssign, ast.For)) and names_table(st) \
+                and not any(isinstance(x, ast.Call) and isinstance(x.func, ast.Name) and x.func.id == 'super' for x in ast.walk(st))
+            if in_place:
+                before = obj.attrs.get('yaml_implicit_resolvers', self.T0)
+                try:
+                    if init.module.name.startswith('yatiml'):
+                        ev.module_constants = init.module.constants
+                        ev.cur_module = init.module
+                    ev.run([st], init_env)
+                    if direct and _is_table(obj.attrs.get('yaml_implicit_resolvers')):
+                        steps.append('%s:line %d' % (init.qual, st.lineno))
+                        direct = []
+                    elif not direct:
+                        continue
+                    else:
+                        obj.attrs['yaml_implicit_resolvers'] = before
+                except AnalysisError:
+                    obj.attrs['yaml_implicit_resolvers'] = before
+                    if not direct:
+                        continue
+                except Exception as e:
+                    raise AnalysisError('partial evaluation of %s line %d raised %r' % (init.key, st.lineno, e))
+            for n in direct:
+                problems.append('%s.__init__ assigns %s directly (line %d): the table in force is no longer the '
+                                'per-instance result of the patch methods' % (c.name, ast.unparse(n), n.lineno))
             if isinstance(st, ast.Expr) and isinstance(st.value, ast.Call):
                 call = st.value
                 f = call.func
